@@ -1,5 +1,5 @@
 """Which units decide which property (DESIGN.md 7, appendix D.2)."""
-from . import api_ops, seam, walks, config, types_c17, pythonic, tables, wire_community, wire_v3, udp, x690_c20, x690_oid
+from . import api_ops, seam, walks, config, types_c17, pythonic, tables, wire_community, wire_v3, udp, x690_c20, x690_oid, x690_bytes
 
 VC = ("contract-based deductive verification: verification conditions generated on every run from the real ASTs "
       "(symbolic execution of each function against its sidecar contract, callee contracts at the seams) and "
@@ -67,11 +67,12 @@ PROPS = {
     },
     "C05": {
         "standins": ["wire-emit"],
-        "units": [wire_community.units_c05, wire_v3.units_emit], "level": "other", "design_ref": "7.5",
+        "units": [wire_community.units_c05, wire_v3.units_emit, x690_bytes.units_for(("C05",))], "level": "other", "design_ref": "7.5",
         "technique": VC + "the real chain operation -> _send -> plug-in loaders -> message processing -> security model -> "
                      "PDU framing executed symbolically; the bytes handed to the sender are compared with an RFC-transcribed "
                      "term over a free BER term algebra",
-        "trusted_base": ["x690 serialisation contract (bytes(obj) = TLV of the class identifier and encode_raw())",
+        "trusted_base": ["x690 serialisation contract (bytes(obj) = TLV of the class identifier and encode_raw()): verified from the "
+                         "x690 source per class by the X690Type.__bytes__ units; the OBJECT IDENTIFIER content octets stay assumed",
                          "importlib/pkgutil: a plug-in namespace yields the modules under /repo/src/<namespace>"],
     },
     "C06": {
